@@ -76,7 +76,13 @@ class WorkerRun:
             self.broker = RabbitMessageBroker("amqp://workrun")
         else:
             self.broker = InMemoryMessageBroker()
-        self.results = InMemoryBucketBroker(use_result_bucket=True) if sc.get("results_broker", True) else None
+        if sc.get("results_kind") == "redis" and sc.get("results_broker", True):
+            import fake_redis
+            fake_redis.install()
+            from repid.connections.redis.bucket_broker import RedisBucketBroker
+            self.results = RedisBucketBroker("redis://workrun-results", use_result_bucket=True)
+        else:
+            self.results = InMemoryBucketBroker(use_result_bucket=True) if sc.get("results_broker", True) else None
         self.args = InMemoryBucketBroker() if sc.get("args_broker", False) else None
         self.conn = Connection(self.broker, self.args, self.results)
         self.plans = {j["id"]: j["plan"] for j in sc["jobs"]}
